@@ -643,6 +643,18 @@ func SpecMatch(pattern string, hasWild bool, s string) bool {
 //@   loop 1 invariant callcount("lockEvents") == old(callcount("lockEvents")) + 1 && e.queries == old(e.queries) && card(e.queries) == old(card(e.queries))
 //@   loop 1 invariant qe != nil && predEventSubOK(e)
 
+// The answer to one query request (run on the entry's work queue, while it holds a lock): an
+// undecodable answer changes nothing; system.notFound becomes a delete event for that query's
+// resource only; answered events, or a full model/collection of the matching kind, are applied to
+// that query's resource only - and none of it can crash the worker, whatever the service sends.
+//@ closure (*EventSubscription).handleQueryEvent#3
+//@   requires e != nil && e.cache != nil && rs != nil && rs.e == e
+//@   assumes (rs.state > stateRequested ==> predLoadedOK(rs)) && (forall sb Subscriber :: has(rs.subs, sb) ==> sb != nil)
+//@   assert[C13] rs.processResetModel#1: rs.state == stateModel && arg0 != nil
+//@   assert[C13] rs.processResetCollection#1: rs.state == stateCollection && arg0 != nil
+//@   safety[C15]
+//@   loop 1 assume rs.e != nil && rs.e.cache != nil && (rs.state > stateRequested ==> predLoadedOK(rs)) && (forall sb Subscriber :: has(rs.subs, sb) ==> sb != nil)
+
 // --- reset diff for models (C12) -------------------------------------------------------------
 
 // processResetModel: the change event derived from a re-fetched model carries exactly a delete
